@@ -150,6 +150,44 @@ pub fn world_case(prop: &'static str, nontrivial: fn(&Stats) -> bool, classes: f
     }
 }
 
+/// Structured generator for the overlap of two lifecycles of ONE hash: a first funded set whose payment
+/// fails (with or without failed parts), a second funded set for the same invoice, and one RPC of the
+/// first lifecycle's bookkeeping withheld for a generated number of effects.
+pub fn overlap_strategy() -> proptest::strategy::BoxedStrategy<Scenario> {
+    use proptest::prelude::*;
+    let d = Profile { crashes: true, w_crash: 3, write_faults: false, heights: false, steps: 0..12, ..Profile::default() };
+    (
+        any::<bool>(),
+        1u8..=2,
+        prop_oneof![Just(PayOutcome::Error(210)), Just(PayOutcome::Error(205)), Just(PayOutcome::Garbled)],
+        0u8..3,
+        (4u16..10, 5u16..36),
+        proptest::collection::vec(step_strategy(&d), 0..12),
+        any::<u64>(),
+        any::<bool>(),
+        proptest::sample::select(&[10u64, 60, 120][..]),
+    )
+        .prop_map(|(recipient_ok, drain_parts, outcome, failed_parts, hold, tail, seed, amountless, mpp)| {
+            let cfg = Cfg { mpp_timeout_s: mpp, ..Cfg::default() };
+            let pay = PaymentSpec { preimage: 0x11, invoice_amount: if amountless { None } else { Some(1_000_000) }, tlv_amount: 1_000_000, hints: Hints::None, explicit_payee: false, recipient_ok, drain_parts };
+            let need = needed_total(&cfg, 1_000_000);
+            let h = |exp: u32| HtlcSpec { pay: 0, hash_of: None, amount_msat: need, total_msat: Some(need), forward_msat: Some(need), cltv_expiry: 1000 + 1100 + exp, cltv_rel: 1100, forward: false, meta: Meta::Normal, extra: vec![], raw_payload: None };
+            let mut steps = vec![Step::Deliver(0), Step::Flush];
+            for _ in 0..failed_parts {
+                steps.push(Step::PayPart(0));
+                steps.push(Step::Part(0, PartOutcome::Fail(203)));
+            }
+            steps.push(Step::PayFinish(0, outcome));
+            steps.extend(tail);
+            let mut scn = crate::props::c13::blank(vec![pay], vec![h(0), h(1), h(2)], seed);
+            scn.cfg = cfg;
+            scn.steps = steps;
+            scn.hold = vec![hold];
+            scn
+        })
+        .boxed()
+}
+
 pub fn run_world_check(c: WorldCheck, tier: Tier, seed: u64) -> i32 {
     let mut s = Session::new(c.prop, tier, seed, c.level, c.rule);
     for a in ASSUMPTIONS {
@@ -159,6 +197,12 @@ pub fn run_world_check(c: WorldCheck, tier: Tier, seed: u64) -> i32 {
     s.regress::<Scenario, _>("world", &case);
     let prof = c.profile.clone();
     s.search("world", "world", tier.pick(c.cases_quick, c.cases_thorough), move || scenario_strategy(prof.clone()), &case);
+    if matches!(c.prop, "C02" | "C05" | "C08") {
+        s.search("world-lifecycle-overlap", "world", tier.pick(300, 4000), overlap_strategy, &case);
+        if tier == Tier::Thorough {
+            enumerate_faults(&mut s, c.prop, 150, &c.profile, c.nontrivial, c.classes);
+        }
+    }
     if tier == Tier::Thorough {
         if let Some(tp) = c.thorough_profile.clone() {
             s.search("world-thorough-profile", "world", c.cases_thorough / 2, move || scenario_strategy(tp.clone()), &case);
@@ -385,6 +429,26 @@ pub fn run_c09(tier: Tier, seed: u64) -> i32 {
     const NONZERO: &[u64] = &[5, 10, 60, 60, 120];
     let base_prof = Profile { mpp_choices: NONZERO, probe: true, max_payments: 1, max_parts: 2, w_under: 5, w_reject: 3, w_nontramp: 0, w_hash_mismatch: 0, steps: 0..10, heights: false, ..d.clone() };
     enumerate_faults(&mut s, "C09", tier.pick(30, 250), &base_prof, nontrivial, classes);
+    // histories with two attempts on ONE hash (first fails, bookkeeping delayed) x every crash point / write fault
+    {
+        use proptest::strategy::{Strategy, ValueTree};
+        use proptest::test_runner::{Config, RngAlgorithm, TestRng, TestRunner};
+        let mut bytes = [7u8; 32];
+        bytes[..8].copy_from_slice(&seed.to_le_bytes());
+        let mut runner = TestRunner::new_with_rng(Config::default(), TestRng::from_seed(RngAlgorithm::ChaCha, &bytes));
+        let strat = overlap_strategy();
+        let mut all = vec![];
+        for _ in 0..tier.pick(12, 120) {
+            let mut b = strat.new_tree(&mut runner).unwrap().current();
+            b.probe = true;
+            b.steps.retain(|s| !matches!(s, Step::Crash { .. }));
+            if b.cfg.mpp_timeout_s == 0 {
+                continue;
+            }
+            all.extend(family(&b));
+        }
+        s.enumerate("enumerate-two-attempt-histories", "world", all, &case);
+    }
     let prof = Profile { mpp_choices: NONZERO, probe: true, w_crash: 8, max_payments: 2, w_under: 5, ..d.clone() };
     s.search("world-random-crashes", "world", tier.pick(300, 3000), move || scenario_strategy(prof.clone()), &case);
     s.finish()
